@@ -67,7 +67,14 @@ def run_rounds(sc, root, helper):
     os.makedirs(d, exist_ok=True)
     cas = []
     for j in range(sc["nep"]):
-        ca = mockca.MockCA(helper, opts={"delay_ms": 0})
+        rules, opts = [], {"delay_ms": 0}
+        if sc["mode"] == "dropped":
+            # some requests are delivered (their nonce is consumed) but never answered, and GET answers carry no
+            # nonce: whoever uses the endpoint next must not send the consumed nonce again
+            rules = [{"kind": k, "nth": n, "answer": {"drop": True}}
+                     for k, n in (("newOrder", 0), ("challenge", 1), ("finalize", 1), ("newAccount", 0))]
+            opts["nonce_on_get"] = False
+        ca = mockca.MockCA(helper, rules=rules, opts=opts)
         ca.o["delay_ms"] = 0
         ca.rand_delay = sc["delay"]
         ca.start()
@@ -173,7 +180,7 @@ def judge_round(ctx, sc, rnd):
                          % (len(tasks) - len(res["results"]), len(tasks))),
                       dict(robj, verdict=v, results=res["results"], tasks=res["tasks"], events=events[:400],
                            pairs=pairs))
-    elif ok_n < len(tasks) and rnd["what"] in ("first", "forgotten"):
+    elif ok_n < len(tasks) and rnd["what"] in ("first", "forgotten") and sc["mode"] != "dropped":
         # not a C12 clause, but a dead harness would hide everything
         ctx.broke("harness", "attempts failed against a conforming CA", dict(robj, results=res["results"]))
 
@@ -190,8 +197,8 @@ def run(ctx):
     shutil.rmtree(root, ignore_errors=True)
     try:
         n = 18 if ctx.quick() else 400
-        modes = ["first", "forgotten", "changes"]
-        scs = [build_scenario(ctx.rng, i, modes[i % 3]) for i in range(n)]
+        modes = ["first", "forgotten", "changes", "dropped"]
+        scs = [build_scenario(ctx.rng, i, modes[i % 4]) for i in range(n)]
         with concurrent.futures.ThreadPoolExecutor(max_workers=6) as ex:
             all_rounds = list(ex.map(lambda sc: run_rounds(sc, root, helper), scs))
         for sc, rounds in zip(scs, all_rounds):
